@@ -286,8 +286,11 @@ def _shape_case(rng, i):
     pre-emption position of one thread (the others run inside the window):
       0 three threads on one key            1 on_miss re-entrancy (lookup -> on_miss -> self[key] = ...)
       2 reads of the oldest keys racing evictions (LRU and LRI)     3 copy() racing writers
-      4 a batch (update / |=) racing readers of its keys: the batch must be visible all or nothing"""
-    shape = i % 5
+      4 a batch (update / |=) racing readers of its keys: the batch must be visible all or nothing
+      5 == / != against a dict or another cache holding exactly the items a half-done eviction shows
+      6 a lookup that goes through on_miss (pre-empted also INSIDE on_miss) racing an assignment /
+        deletion of the same key: the assignment must not be lost"""
+    shape = i % 7
     mx = rng.choice([1, 2, 2, 3])
     init = [[0, 1], [1, 2], [5, 3]][:mx]
     v = lambda: 10 + rng.randrange(30)
@@ -319,6 +322,24 @@ def _shape_case(rng, i):
         threads = [[batch], reader]
         om, kind = 0, rng.choice(["LRI", "LRU"])
         mx, init = 3, [[0, 1], [1, 2]]
+    elif shape == 5:
+        mx = rng.choice([2, 2, 3])
+        init = [[0, 1], [1, 2], [5, 3]][:mx]
+        newv = v()
+        mid = init[1:]                                   # what the dict holds between the delete and the insert
+        lit = rng.choice([mid, mid, init, init[1:] + [[2, newv]]])
+        cmp_op = [rng.choice(["eq", "ne", "eqc", "nec"]), lit]
+        threads = [[["set", 2, newv]], [cmp_op] + ([[rng.choice(["eq", "ne"]), mid]] if rng.random() < 0.3 else [])]
+        om, kind = 0, rng.choice(["LRI", "LRU"])
+        return {"kind": kind, "max": mx, "on_miss": om, "init": init, "threads": threads, "scheds": _sys_scheds(0, 1)}
+    elif shape == 6:
+        k = rng.choice([2, 3])
+        look = rng.choice([["get", k], ["get", k], ["getd", k, v()], ["setdefault", k, v()]])
+        other = rng.choice([[["set", k, v()]], [["set", k, v()]], [["update", [[k, v()]], "list"]], [["ior", [[k, v()]], "dict"]],
+                            [["set", k, v()], ["get", k]], [["del", k]], [["pop", k]], [["get", k]], [["setdefault", k, v()]]])
+        threads = [[look], other]
+        om, kind = 1, rng.choice(["LRU", "LRU", "LRI"])
+        return {"kind": kind, "max": mx, "on_miss": om, "init": init, "threads": threads, "scheds": _sys_scheds(0, 1)}
     else:
         threads = [[["copy"]],
                    [rng.choice([["set", 2, v()], ["set", 0, v()], ["del", 0], ["clear"], ["popitem"], ["pop", 0],
@@ -367,7 +388,7 @@ def generate(rng, tier, n):
             yield c
         for c in _all_pairs_sweeps():
             yield c
-        for i in range(200):
+        for i in range(350):
             yield _shape_case(rng, i)
     for _ in range(6 if tier == "quick" else 120):
         yield _grid_case(rng, 300 if tier == "quick" else 2500)
@@ -377,8 +398,8 @@ def generate(rng, tier, n):
         if i % 10 == 7:
             yield _race_case(rng)
             continue
-        if i % 10 == 9:
-            yield _shape_case(rng, i // 10)
+        if i % 10 == 9 or i % 10 == 5:
+            yield _shape_case(rng, i // 5)
             continue
         c = _gen_program(rng, tier)
         nth = len(c["threads"])
@@ -438,6 +459,13 @@ def _do_op(cache, op, miss_default=None):
         return ["none"] if c2 is cache else ["bad"]
     if name == "eq":
         r = (cache == _arg("dict", op[1]))
+        return ["bool", 1 if r is True else 0] if isinstance(r, bool) else ["bad"]
+    if name in ("eqc", "nec"):
+        # the other operand is a private cache of the same class holding the given items
+        other = type(cache)(max_size=8)
+        for kk, vv in op[1]:
+            other[key_obj(kk)] = val_obj(vv)
+        r = (cache == other) if name == "eqc" else (cache != other)
         return ["bool", 1 if r is True else 0] if isinstance(r, bool) else ["bad"]
     if name == "ne":
         r = (cache != _arg("dict", op[1]))
@@ -518,10 +546,11 @@ def _one_run(case, plan, start):
     import c03_sched
     cu, cu_file = _cacheutils()
     cls = cu.LRU if case["kind"] == "LRU" else cu.LRI
-    on_miss = (lambda k: val_obj(ktok(k) + 50)) if case["on_miss"] else None
+    import c03_onmiss
+    on_miss = c03_onmiss.make(ktok, val_obj) if case["on_miss"] else None
     cache = cls(max_size=case["max"], on_miss=on_miss)
     nth = len(case["threads"])
-    sched = c03_sched.Sched(nth, plan, start, cu_file)
+    sched = c03_sched.Sched(nth, plan, start, cu_file, extra_files=(c03_onmiss.__file__,))
     kind = c03_sched.lock_kind(cache._lock)
     # the lock is replaced BEFORE the sequential set-up: with a non re-entrant lock even a
     # single-threaded insert (__setitem__ -> len(self)) blocks on itself; on the real lock that
@@ -674,8 +703,10 @@ def _op_coq(op):
         return "Ior %s" % _pairs(op[1])
     if n == "eq":
         return "EqDict %s" % _pairs(op[1])
-    if n == "ne":
+    if n == "ne" or n == "nec":
         return "NeDict %s" % _pairs(op[1])
+    if n == "eqc":
+        return "EqDict %s" % _pairs(op[1])
     if n == "copy2":
         return "CopyCopy"
     if n == "eqself":
@@ -823,6 +854,9 @@ def search(rng, tier, n, broken):
     combos = [(a, b) for a in first_ops for b in second]
     rng.shuffle(combos)
     count = 0
+    for i in range(min(n // 2, 70)):                 # the shape templates first: they aim at the narrow windows
+        yield _shape_case(rng, i)
+        count += 1
     for (a, b) in combos:
         kind = rng.choice(["LRI", "LRU"])
         mx = rng.choice([2, 2, 3])
